@@ -70,15 +70,50 @@ func build(c *Case, entry, method string) (p *prog.Program, pre, suf string) {
 		}
 		return p, `{"k":`, "}\n"
 	case "slice":
-		p.Ev = []prog.Op{{M: method, K: b("k"), V: c.Slice}}
+		sl := triple(c.Slice)
+		p.Ev = []prog.Op{{M: method, K: b("k"), V: &sl}}
 		return p, `{"k":[`, "]}\n"
 	case "fieldsofslice":
-		ft := *c.Slice
+		ft := triple(c.Slice)
 		ft.T = "[]" + c.FT
 		p.Ev = []prog.Op{{M: "Fields", Map: true, KV: []prog.KV{{K: prog.B("k"), V: &ft}}}}
 		return p, `{"k":[`, "]}\n"
 	}
 	panic("unknown entry " + entry)
+}
+
+// triple: the slice variants are exercised with THREE copies of the value, so that an element's rendering
+// cannot depend on its position (first element vs. the loop over the rest)
+func triple(tv *prog.TV) prog.TV {
+	t := *tv
+	if len(t.IS) == 1 {
+		t.IS = []string{t.IS[0], t.IS[0], t.IS[0]}
+	}
+	if len(t.XS) == 1 {
+		t.XS = []string{t.XS[0], t.XS[0], t.XS[0]}
+	}
+	if len(t.BS) == 1 {
+		t.BS = []bool{t.BS[0], t.BS[0], t.BS[0]}
+	}
+	if len(t.SS) == 1 {
+		t.SS = []*prog.B{t.SS[0], t.SS[0], t.SS[0]}
+	}
+	return t
+}
+
+// untriple: raw is the inside of the array; it must be three identical elements
+func untriple(raw []byte) ([]byte, bool) {
+	var parts []json.RawMessage
+	if err := json.Unmarshal(append(append([]byte("["), raw...), ']'), &parts); err != nil || len(parts) != 3 {
+		return nil, false
+	}
+	if !bytes.Equal(parts[0], parts[1]) || !bytes.Equal(parts[0], parts[2]) {
+		return nil, false
+	}
+	if len(raw) != 3*len(parts[0])+2 { // no extra white space or separators
+		return nil, false
+	}
+	return parts[0], true
 }
 
 func sanitize(s []byte) string { // each invalid UTF-8 byte becomes U+FFFD, as encoding/json does
@@ -234,6 +269,13 @@ func main() {
 				if bytes.HasPrefix(out, []byte(pre)) && bytes.HasSuffix(out, []byte(suf)) && len(out) >= len(pre)+len(suf) {
 					raw := out[len(pre) : len(out)-len(suf)]
 					r.Field = true
+					if entry == "slice" || entry == "fieldsofslice" {
+						if one, ok := untriple(raw); ok {
+							raw = one
+						} else {
+							raw = append([]byte("elements differ or wrong count: "), raw...)
+						}
+					}
 					r.Raw = hex.EncodeToString(raw)
 					r.OK, r.Kind = decodeBack(&c, raw)
 				} else {
